@@ -252,6 +252,8 @@ pub struct Violation {
     pub stage: u8,
     pub loci: Vec<R>,
     pub unspanned_ok: bool,
+    /// further places where a diagnostic for this rule is tolerated, without counting as its report
+    pub tolerated: Vec<R>,
     pub demanded: bool,
 }
 
@@ -267,6 +269,7 @@ fn eval_options(tr: Tr, level: Level, occs: &[&Occ], unit_variant: bool, stage: 
         stage,
         loci,
         unspanned_ok: false,
+        tolerated: vec![],
         demanded: true,
     };
     if level == Level::Ignored {
@@ -335,6 +338,7 @@ pub fn rules(d: &Decl) -> Vec<Violation> {
             stage: 0,
             loci: vec![whole],
             unspanned_ok: true,
+            tolerated: vec![],
             demanded: true,
         });
     }
@@ -344,6 +348,7 @@ pub fn rules(d: &Decl) -> Vec<Violation> {
             stage: 0,
             loci: vec![whole],
             unspanned_ok: true,
+            tolerated: vec![],
             demanded: true,
         });
     }
@@ -386,6 +391,7 @@ pub fn rules(d: &Decl) -> Vec<Violation> {
                         stage: 2,
                         loci: vec![f.range],
                         unspanned_ok: false,
+                        tolerated: vec![],
                         demanded: vs.is_empty(),
                     });
                 }
@@ -397,6 +403,7 @@ pub fn rules(d: &Decl) -> Vec<Violation> {
                     stage: 2,
                     loci: all_flatten,
                     unspanned_ok: false,
+                    tolerated: vec![],
                     demanded: clean_flatten.len() > 1,
                 });
             }
@@ -408,6 +415,7 @@ pub fn rules(d: &Decl) -> Vec<Violation> {
                             stage: 0,
                             loci: vec![whole],
                             unspanned_ok: true,
+                            tolerated: vec![],
                             demanded: true,
                         });
                     }
@@ -418,6 +426,7 @@ pub fn rules(d: &Decl) -> Vec<Violation> {
                         stage: 2,
                         loci: from_word_loci.clone(),
                         unspanned_ok: false,
+                        tolerated: vec![],
                         // a cross-element rule: shown only when the field itself is clean
                         demanded: matches!(&d.body, Body::Tuple(t) if field_rules(&t[0], false).is_empty()),
                     });
@@ -469,6 +478,7 @@ pub fn rules(d: &Decl) -> Vec<Violation> {
                             stage: 2,
                             loci: vec![var.range],
                             unspanned_ok: false,
+                            tolerated: vec![],
                             demanded: clean,
                         });
                     }
@@ -480,17 +490,19 @@ pub fn rules(d: &Decl) -> Vec<Violation> {
                     stage: 2,
                     loci: all_words.clone(),
                     unspanned_ok: false,
+                    tolerated: vec![],
                     demanded: clean_words.len() > 1,
                 });
             }
             if !all_words.is_empty() && has_from_word.is_some() {
-                let mut loci = from_word_loci.clone();
-                loci.extend(all_words.iter().copied());
+                // reported at the container's `from_word`: a diagnostic at a `word` token could not
+                // be told apart from the more-than-one-word rule's reports
                 out.push(Violation {
                     rule: "word-with-from_word",
                     stage: 2,
-                    loci,
+                    loci: from_word_loci.clone(),
                     unspanned_ok: false,
+                    tolerated: all_words.clone(),
                     demanded: !clean_words.is_empty(),
                 });
             }
@@ -503,6 +515,7 @@ pub fn rules(d: &Decl) -> Vec<Violation> {
             stage: 2,
             loci: from_word_loci.clone(),
             unspanned_ok: false,
+            tolerated: vec![],
             demanded: true,
         });
     }
@@ -520,6 +533,7 @@ pub fn rules(d: &Decl) -> Vec<Violation> {
                 stage: 3,
                 loci: vec![whole],
                 unspanned_ok: true,
+                tolerated: vec![],
                 demanded: true,
             });
         }
@@ -596,22 +610,47 @@ pub fn judge(d: &Decl, origin: &'static str, c: &mut Collector) {
                 witness(json!({"diagnostics": diags})),
             );
         } else {
+            // every demanded rule needs a diagnostic of its own: maximum matching rules -> diagnostics
+            // (rules violated by one and the same token share that token's diagnostic)
+            let mut demanded: Vec<&Violation> = vec![];
             for v in r.iter().filter(|v| v.demanded) {
-                let covered = cl.errors.iter().any(|(_, sp)| match sp {
-                    Some(s) => v.loci.iter().any(|l| within(*s, *l)),
-                    None => v.unspanned_ok,
-                });
-                if !covered {
+                if !demanded.iter().any(|p| p.loci.first() == v.loci.first() && p.unspanned_ok == v.unspanned_ok) {
+                    demanded.push(v);
+                }
+            }
+            let edge = |v: &Violation, sp: &Option<R>| match sp {
+                Some(s) => v.loci.iter().any(|l| within(*s, *l)),
+                None => v.unspanned_ok,
+            };
+            let mut owner: Vec<Option<usize>> = vec![None; cl.errors.len()];
+            fn augment(i: usize, adj: &[Vec<usize>], owner: &mut Vec<Option<usize>>, seen: &mut Vec<bool>) -> bool {
+                for &j in &adj[i] {
+                    if seen[j] {
+                        continue;
+                    }
+                    seen[j] = true;
+                    if owner[j].is_none() || augment(owner[j].unwrap(), adj, owner, seen) {
+                        owner[j] = Some(i);
+                        return true;
+                    }
+                }
+                false
+            }
+            let adj: Vec<Vec<usize>> = demanded.iter().map(|v| (0..cl.errors.len()).filter(|j| edge(v, &cl.errors[*j].1)).collect()).collect();
+            for (i, v) in demanded.iter().enumerate() {
+                let mut seen = vec![false; cl.errors.len()];
+                if !augment(i, &adj, &mut owner, &mut seen) {
+                    let class = if adj[i].is_empty() { "rule-not-reported" } else { "rule-shares-a-report" };
                     c.violation(
-                        format!("C10:{name}:rule-not-reported:{}", v.rule),
-                        format!("derive({name}) on `{}`: no diagnostic at the tokens violating `{}` (loci {:?}); diagnostics: {:?}", d.src, v.rule, v.loci, cl.errors),
+                        format!("C10:{name}:{class}:{}", v.rule),
+                        format!("derive({name}) on `{}`: no diagnostic of its own at the tokens violating `{}` (loci {:?}); diagnostics: {:?}", d.src, v.rule, v.loci, cl.errors),
                         witness(json!({"diagnostics": diags, "missing": v.rule})),
                     );
                 }
             }
             for (m, sp) in &cl.errors {
                 let attributable = match sp {
-                    Some(s) => r.iter().any(|v| v.loci.iter().any(|l| within(*s, *l))),
+                    Some(s) => r.iter().any(|v| v.loci.iter().chain(v.tolerated.iter()).any(|l| within(*s, *l))),
                     None => r.iter().any(|v| v.unspanned_ok),
                 };
                 if !attributable {
@@ -829,6 +868,35 @@ fn enumerate_variant_and_container(c: &mut Collector) {
                     judge(&d, "enumerated-variant-options", c);
                 }
             }
+        }
+    }
+    // the word rules across a whole enum: every assignment of {-, word, word = true, word = false}
+    // to three unit variants, with and without a container `from_word`
+    let spell = [None, Some(("word", true)), Some(("word = true", true)), Some(("word = false", false))];
+    for code in 0..64usize {
+        for with_from_word in [false, true] {
+            let mut variants = vec![];
+            for k in 0..3 {
+                let attrs = match spell[(code >> (2 * k)) & 3] {
+                    None => vec![],
+                    Some((text, on)) => vec![vec![occ("word", text, on)]],
+                };
+                variants.push(VariantSpec {
+                    name: format!("V{k}"),
+                    attrs,
+                    body: VBody::Unit,
+                    range: (0, 0),
+                });
+            }
+            let mut d = Decl {
+                tr: Tr::Meta,
+                cattrs: if with_from_word { vec![vec![occ("from_word", "from_word = mk_word", true)]] } else { vec![] },
+                generics: String::new(),
+                body: Body::Enum(variants),
+                src: String::new(),
+            };
+            render(&mut d);
+            judge(&d, "enumerated-word-rules", c);
         }
     }
     for tr in ALL_TR {
